@@ -400,3 +400,60 @@ def rejection_class(decl, out, part):
         if 0 < k < len(roots):
             cls.add("flatten-partly-in-output")
     return cls
+
+
+# ----------------------------------------------------------------------------
+# two partitioned Einsums in one specification (state kept across Einsums / keyed by rank name shows here)
+# ----------------------------------------------------------------------------
+
+def _retensor(es, tmap):
+    """rename the tensors of a generated Einsum (declaration + expression)"""
+    decl = {tmap.get(t, t): list(rs) for t, rs in es["decl"].items()}
+    expr = re.sub(r'\b([A-Z][A-Za-z0-9]*)\[', lambda m: tmap.get(m.group(1), m.group(1)) + "[", es["expr"])
+    return dict(es, decl=decl, expr=expr, out=tmap.get(es["out"], es["out"]))
+
+
+def wide_pairs(rng, n, rename_p=0.5, chain_p=0.6, **kw):
+    """Specifications with TWO product Einsums over the same rank names, each with its own wide partitioning (its own
+    leaders, level stacks, flatten tuples and loop order); the second reads the first one's result when its ranks allow.
+    Items carry `parts` = {output: partitioning of that Einsum}."""
+    k = 0
+    while k < n:
+        es1 = gen_product_einsum(rng, max_ranks=3)
+        es1 = _retensor(es1, {"Z": "T"})
+        es2 = gen_product_einsum(rng, max_ranks=3 if rng.random() < 0.7 else 4)
+        es2 = _retensor(es2, {"A": "P", "B": "Q", "C": "R", "D": "S"})
+        chained = False
+        t_ranks = es1["decl"]["T"]
+        if t_ranks and set(t_ranks) <= set(es2["ranks"]) and rng.random() < chain_p:
+            es2["decl"] = dict([("T", list(t_ranks))] + [(t, rs) for t, rs in es2["decl"].items()])
+            lhs, rhs = es2["expr"].split(" = ", 1)
+            es2["expr"] = lhs + " = T" + specgen._idx(t_ranks) + " * " + rhs
+            chained = True
+        m1, s1, f1 = wide_partition_mapping(rng, es1, **kw)
+        m2, s2, f2 = wide_partition_mapping(rng, es2, **kw)
+        if m1 is None or m2 is None:
+            continue
+        k += 1
+        decl = dict(es1["decl"])
+        for t, rs in es2["decl"].items():
+            decl.setdefault(t, rs)
+        mp = {"rank-order": dict(m1["rank-order"]), "partitioning": {}, "loop-order": {}}
+        for t, o in m2["rank-order"].items():
+            mp["rank-order"].setdefault(t, o)
+        mp["partitioning"].update(m1["partitioning"])
+        mp["partitioning"].update(m2["partitioning"])
+        mp["loop-order"].update(m1.get("loop-order") or {})
+        mp["loop-order"].update(m2.get("loop-order") or {})
+        syms = dict(s1 or {})
+        syms.update(s2 or {})
+        exprs = [es1["expr"], es2["expr"]]
+        style = "identity"
+        rmap = {}
+        if rng.random() < rename_p:
+            decl, exprs, mp, rmap, style = rename_ranks(rng, decl, exprs, mp)
+        feats = {"pair": 1, "chained": int(chained), "naming": style,
+                 "both_occupancy": int(bool(f1["occ_levels"] and f2["occ_levels"])),
+                 "mixed_leaders": f1["mixed_leaders"] + f2["mixed_leaders"], "flatten": f1["flatten"] + f2["flatten"]}
+        yield {"yaml": specgen.yaml_of(decl, exprs, mp), "syms": syms, "kind": "wide-pair", "mapping": mp, "features": feats,
+               "rmap": rmap, "out": "Z", "outs": ["T", "Z"], "decl": decl, "exprs": exprs}
